@@ -164,6 +164,9 @@ BULK_SCRIPTS = [
     ("if_then", "R <- if DS_1#Me_2 > 4 then DS_1 else DS_2;"),
     ("check_datapoint", 'define datapoint ruleset dpr (variable Me_1, Me_2) is r1: Me_1 >= Me_2 errorcode "e1" errorlevel 1; r2: when Me_2 > 5 then Me_1 > 0 errorcode "e2" end datapoint ruleset; R <- check_datapoint(DS_1, dpr invalid);'),
     ("time_series", "R <- flow_to_stock(DS_T); S <- timeshift(DS_T, 1); T <- fill_time_series(DS_T, single);"),
+    ("viral_enumerated_group", 'define viral propagation vp1 (variable At_1) is when "A" and "B" then "C"; when "C" then "A"; when "B" then "B"; else "D" end viral propagation; define viral propagation vp2 (variable At_2) is aggregate min end viral propagation; R <- sum(DS_V group by Id_2);'),
+    ("viral_aggregate_binary", "define viral propagation vp1 (variable At_2) is aggregate max end viral propagation; define viral propagation vp2 (variable At_1) is when \"A\" then \"A\"; else \"Z\" end viral propagation; R <- DS_V + DS_V;"),
+    ("ratio_cancelling", "R <- ratio_to_report(DS_C over (partition by Id_2));"), ("sum_cancelling", "R <- sum(DS_C group by Id_2); S <- avg(DS_C group by Id_2);"),
     ("multi_statement", "A := DS_1 [filter Me_2 <= 7]; B := sum(A group by Id_2); C := A [calc k := Me_1 + 1]; R <- inner_join(C as c, B as b rename c#Me_1 to M1, b#Me_1 to T1, c#Me_2 to M2, b#Me_2 to T2);"),
 ]
 
@@ -185,8 +188,16 @@ def bulk_inputs(n, seed):
     k = np.arange(m * 36)
     dft = pd.DataFrame({"Id_1": k // 36, "Id_t": ["%dM%d" % (2000 + (i % 36) // 12, (i % 12) + 1) for i in k], "Me_1": rng.randint(-400, 400, len(k)) / 4.0})
     dft = dft[rng.rand(len(dft)) > 0.1].sample(frac=1.0, random_state=seed).reset_index(drop=True)
-    S = eng.structures(eng.structure("DS_1", comps), eng.structure("DS_2", comps), eng.structure("DS_3", comps3), eng.structure("DS_T", compsT))
-    return S, {"DS_1": table(0), "DS_2": table(n // 2), "DS_3": table(0, True), "DS_T": dft}
+    # viral attributes (a rule table that is not associative) and large, mostly cancelling values (exact in decimal arithmetic, order-sensitive in binary floating point)
+    nv = max(1000, n // 2)
+    compsV = [eng.comp("Id_1", "Integer", "I"), eng.comp("Id_2", "Integer", "I"), eng.comp("Me_1", "Number"), eng.comp("At_1", "String", "V"), eng.comp("At_2", "Integer", "V")]
+    iv = np.arange(nv)
+    dfv = pd.DataFrame({"Id_1": iv // 64, "Id_2": iv % 64, "Me_1": rng.randint(0, 100, nv) / 4.0, "At_1": np.array(["A", "B", "C", "D"])[rng.randint(0, 4, nv)], "At_2": rng.randint(0, 1000, nv)}).sample(frac=1.0, random_state=seed).reset_index(drop=True)
+    compsC = [eng.comp("Id_1", "Integer", "I"), eng.comp("Id_2", "Integer", "I"), eng.comp("Me_1", "Number")]
+    big = np.where(iv % 2 == 0, 1.0, -1.0) * 1e15
+    dfc = pd.DataFrame({"Id_1": iv // 8, "Id_2": iv % 8, "Me_1": big + rng.randint(1, 4000, nv) / 4.0}).sample(frac=1.0, random_state=seed).reset_index(drop=True)
+    S = eng.structures(eng.structure("DS_1", comps), eng.structure("DS_2", comps), eng.structure("DS_3", comps3), eng.structure("DS_T", compsT), eng.structure("DS_V", compsV), eng.structure("DS_C", compsC))
+    return S, {"DS_1": table(0), "DS_2": table(n // 2), "DS_3": table(0, True), "DS_T": dft, "DS_V": dfv, "DS_C": dfc}
 
 
 def frames_differ(a, b):
@@ -274,7 +285,7 @@ def run(ctx):
     ids = [c["id"] for c in corpus.rotate(corpus.executable_cases(max_s=3.0), ctx.seed, 64 if q else 10 ** 6)]
     jobs += [("work_corpus", (ids[k::4], ctx.seed)) for k in range(4)]
     names = [s[0] for s in BULK_SCRIPTS]
-    shards = 9 if q else 13
+    shards = 10 if q else 15
     jobs += [("work_bulk", (names[k::shards], n, ctx.seed + 17, ctx.seed + k)) for k in range(shards)]
     if not q:
         jobs += [("work_bulk", (names[k::shards], 100000, ctx.seed + 99 + r, ctx.seed + k + r)) for k in range(shards) for r in range(3)]
